@@ -331,10 +331,12 @@ def check_case(case):
 APPEND = [' + 1', ' * 2', ' - 1', ' if True else 0', ' or 1', ' and 1', ' == 1', ' < 2',
           ' is None', ' in [1]', ' 1', " 'a'", ' ;', ';', ' x', ' )', ' ]', ' }', ' =', ' = 1',
           ' ,', ',', ', 2', ' :', ' .', '.real', '[0]', '()', '.x', ' @', ' %', ' \\', ' 1 2',
-          ' None', ' True', ' -1', " b'x'", " f'x'", ' -', ' (', ' [', ' {', ' "', " '''"]
-PREPEND = ['+', '~', '-', '--', '- -', 'not ', '-(', '(', '[', '{', '*', '**', 'lambda: ',
+          ' None', ' True', ' -1', " b'x'", " f'x'", ' -', ' (', ' [', ' {', ' "', " '''",
+          # blanks that are not ASCII white space: CPython's tokenizer reads them as (invalid) names
+          '\u00a0', ' \u00a0', '\u3000', ' \u2003 ', '\u00a0 1']
+PREPEND = ['\u00a0', '-\u00a0 ', '+', '~', '-', '--', '- -', 'not ', '-(', '(', '[', '{', '*', '**', 'lambda: ',
            'x = ', 'await ', '= ', ': ', ', ', '. ']
-WHOLE = ['foo', '[foo]', "{'a': foo}", 'nan', 'inf', '-inf', 'true', 'null', 'none',
+WHOLE = ['[1,\u00a0]', "{'a':\u00a0-1}", '1\u00a0', '[1\u30002]', 'foo', '[foo]', "{'a': foo}", 'nan', 'inf', '-inf', 'true', 'null', 'none',
          '[x for x in [1]]', '[1 for _ in (1,)]', "{k: 1 for k in 'a'}", '(x for x in [])',
          '[1,,2]', '[,]', '(,)', '{:}', '{1}', '{1, 2}', '{1: }', '{: 1}', '{1: 2: 3}', '{1: 2,, }',
          '...', 'Ellipsis', 'int(1)', "'a'.upper()", '[1][0]', "f'a'", "f'{1}'", '1 .real',
